@@ -6,5 +6,5 @@ cp -r /repo/lomond $D/
 sed -i "$1" $D/lomond/$2
 diff -u /repo/lomond/$2 $D/lomond/$2 | grep '^[-+]' | grep -v '^---\|^+++' || echo "NO CHANGE"
 shift 2
-cd /verif && LOMOND_ROOT=$D PYTHONPATH=$D:/verif timeout 900 python3-vt -u tools/dev_run.py "$@" 2>&1 | grep -v 'variant\|canaries' 
+cd /verif && LOMOND_ROOT=$D PYTHONPATH=$D:/verif timeout 900 python3-vt -u tools/dev_run.py "$@" 2>&1
 rm -rf $D
